@@ -240,14 +240,14 @@ edition = "{edition}"
         return live
 
     def write_root(self, main_fn=None):
-        """main_fn(live_case_ids) -> body of fn main"""
+        """main_fn(live_case_ids) -> body of fn report (called by main and by a #[test])"""
         live = self._write_mod()
         body = main_fn(live) if main_fn else ""
         root = "lib.rs" if self.lib else "main.rs"
         with open(os.path.join(self.root, "src", root), "w") as f:
             f.write(self.crate_attrs + self.prelude + "\npub mod cases;\n")
             if not self.lib:
-                f.write("fn main() {\n" + body + "\n}\n")
+                f.write("fn report() {\n" + body + "\n}\nfn main() { report() }\n#[test] fn report_under_test() { report() }\n")
         return live
 
     def build(self, mode="check", dump=None, main_fn=None, max_iter=12, test=False, timeout=1800,
@@ -282,7 +282,8 @@ edition = "{edition}"
                 except Exception:
                     continue
                 if m.get("reason") == "compiler-artifact" and m.get("executable") and \
-                        m.get("target", {}).get("name") == self.name:
+                        m.get("target", {}).get("name") == self.name and \
+                        bool(m.get("profile", {}).get("test")) == bool(test):
                     exe = m["executable"]
                 if m.get("reason") != "compiler-message":
                     continue
